@@ -100,6 +100,127 @@ func TestVerifC12KFEmptyFieldKey(t *testing.T) {
 	}
 }
 
+// vC12KFRoundTrip is shared by the two line-splitter findings: reproduced when the input is
+// accepted as one point of the given shape whose String() does not parse back to the same point.
+func vC12KFRoundTrip(st *verifkit.Stats, sig string, inputs []string, shape func(Point) bool, what string) {
+	for _, in := range inputs {
+		pts, err, pn := vC12Parse([]byte(in), vC12RefTime, "n")
+		reproduced := ""
+		if pn != nil {
+			reproduced = fmt.Sprintf("parser panics: %v", pn)
+		} else if err == nil && len(pts) == 1 && shape(pts[0]) {
+			if e := vC12CheckAccepted(pts[0], "n", 0); e != nil {
+				reproduced = fmt.Sprintf("accepted, then %s: %s", e.sig, e.msg)
+			}
+		}
+		st.Case(true, in, "kf-input")
+		if reproduced != "" {
+			st.KnownReproduced(sig, fmt.Sprintf("%s: input %q is %s", what, in, reproduced))
+			st.Class("kf-reproduced", 1)
+		}
+		st.Sample(map[string]interface{}{"input": in, "reproduced": reproduced})
+	}
+}
+
+func TestVerifC12KFKeyBackslashSpace(t *testing.T) {
+	st := verifkit.For("C12", "TestVerifC12KFKeyBackslashSpace", "directed: a tag key/value or measurement ending in two backslashes in front of a space, a quote earlier in the key and a string value holding a newline; reproduced when the accepted point's String() does not parse back to it")
+	defer st.Flush()
+	vC12KFRoundTrip(st, vC12SigKeyBackslashSpace, []string{
+		"a,a=\",\\\\ =a a=\"aaaa\n\"",
+		"m,b=\",\\\\ =x f=\"p\nq\" 7",
+	}, func(p Point) bool { return vC12KeyBackslashSpace(p.Key()) }, "line splitter and key scanner disagree on a space after a doubled backslash")
+}
+
+func TestVerifC12KFMalformedFields(t *testing.T) {
+	st := verifkit.For("C12", "TestVerifC12KFMalformedFields", "directed: field sections in which a field has no '=' and a later quoted string holds a compensating '=' (the field scanner validates by counting '=' and ','); reproduced when the line is accepted although its field section is not key=value(,key=value)*")
+	defer st.Flush()
+	for _, in := range []string{`m a,b="=",c=d"`, `a \=-9223372036854775808i,a="=",a=a"`, `m a,b="=",c="x" 5`} {
+		pts, err, pn := vC12Parse([]byte(in), vC12RefTime, "n")
+		reproduced := ""
+		if pn != nil {
+			reproduced = fmt.Sprintf("parser panics: %v", pn)
+		} else if err == nil && len(pts) == 1 {
+			if why := vC12StrictFields(pts[0].(*point).fields); why != "" {
+				f, ferr := pts[0].Fields()
+				reproduced = fmt.Sprintf("accepted (strict reading: %s); Fields() = %v, %v", why, f, ferr)
+			}
+		}
+		st.Case(true, in, "kf-input")
+		if reproduced != "" {
+			st.KnownReproduced(vC12SigMalformedFields, fmt.Sprintf("line %q is %s", in, reproduced))
+			st.Class("kf-reproduced", 1)
+		}
+		st.Sample(map[string]interface{}{"input": in, "reproduced": reproduced})
+	}
+}
+
+func TestVerifC12KFNewlineInKey(t *testing.T) {
+	st := verifkit.For("C12", "TestVerifC12KFNewlineInKey", "directed: a line that starts with a space and has =\" followed by a newline inside its measurement/tags; reproduced when it is accepted with a newline in the key and String() does not parse back to it")
+	defer st.Flush()
+	vC12KFRoundTrip(st, vC12SigNewlineInKey, []string{
+		" aaaaa=a\"\n,aa=a,a=a a=0",
+		" m=\"\nx,t=v f=1 5",
+		" a=a,aaaaa=a\"a,b=aaaaa,aaaa=a \n=0,aaaaaa=-9223372036854775808i",
+	}, func(p Point) bool { return vC12KnownShape(p) == vC12SigNewlineInKey }, "a leading space makes the line splitter treat a quote in the key as the start of a string")
+}
+
+// The two request-level findings. The request generator (G3) never ends a line in a backslash
+// and never puts a quote into a comment, so they are excluded from it by construction.
+func TestVerifC12KFBackslashJoinsLines(t *testing.T) {
+	st := verifkit.For("C12", "TestVerifC12KFBackslashJoinsLines", "directed: a malformed line that ends in a backslash, followed by the valid line 'cpu v=1 1'; reproduced when the valid line does not come back as measurement cpu (the line splitter skips the newline as an escaped byte)")
+	defer st.Flush()
+	for _, in := range []string{"bad\\\ncpu v=1 1", "bad f=1x\\\ncpu v=1 1", "bad,t=v\\\ncpu v=1 1\ncpu v=2 2"} {
+		pts, err, pn := vC12Parse([]byte(in), vC12RefTime, "n")
+		reproduced := ""
+		if pn != nil {
+			reproduced = fmt.Sprintf("parser panics: %v", pn)
+		} else {
+			found := false
+			for _, p := range pts {
+				if string(p.Name()) == "cpu" && p.UnixNano() == 1 {
+					found = true
+				}
+			}
+			if !found {
+				names := []string{}
+				for _, p := range pts {
+					names = append(names, string(p.Name()))
+				}
+				reproduced = fmt.Sprintf("valid line 'cpu v=1 1' lost; returned measurements %q, err %v", names, err)
+			}
+		}
+		st.Case(true, in, "kf-input")
+		if reproduced != "" {
+			st.KnownReproduced(vC12SigBackslashJoins, fmt.Sprintf("request %q: %s", in, reproduced))
+			st.Class("kf-reproduced", 1)
+		}
+		st.Sample(map[string]interface{}{"input": in, "reproduced": reproduced})
+	}
+}
+
+func TestVerifC12KFCommentSwallowsLines(t *testing.T) {
+	st := verifkit.For("C12", "TestVerifC12KFCommentSwallowsLines", "directed: a comment line that contains =\" followed by valid lines; reproduced when fewer points than valid lines come back (the line splitter opens a string inside the comment and swallows the following lines, without any error)")
+	defer st.Flush()
+	for _, c := range []struct {
+		in   string
+		want int
+	}{{"# a=\"b\ncpu v=1 1\ncpu v=2 2", 2}, {"cpu v=1 1\n# x=\"\ncpu v=2 2\ncpu v=3 3", 3}} {
+		pts, err, pn := vC12Parse([]byte(c.in), vC12RefTime, "n")
+		reproduced := ""
+		if pn != nil {
+			reproduced = fmt.Sprintf("parser panics: %v", pn)
+		} else if len(pts) != c.want {
+			reproduced = fmt.Sprintf("%d valid lines, %d points returned, err %v", c.want, len(pts), err)
+		}
+		st.Case(true, c.in, "kf-input")
+		if reproduced != "" {
+			st.KnownReproduced(vC12SigCommentSwallows, fmt.Sprintf("request %q: %s", c.in, reproduced))
+			st.Class("kf-reproduced", 1)
+		}
+		st.Sample(map[string]interface{}{"input": c.in, "reproduced": reproduced})
+	}
+}
+
 func vC12Frame(key, fields string) []byte {
 	tb, _ := time.Unix(0, 42).UTC().MarshalBinary()
 	var b []byte
